@@ -153,7 +153,7 @@ def idx_ok(sim) -> bool:
 # ----------------------------------------------------------------------------- I-req (C17 / C03)
 def req_ok(sim, vids) -> bool:
     """
-    r.dispatched_vehicle = v (a modelled vehicle)  =>  v is in DispatchTrip(r);
+    r.dispatched_vehicle = v (a modelled vehicle)  =>  v is in DispatchTrip(r) (or in a DispatchPoolingTrip whose plan names r);
     a request that is on board some vehicle is not waiting in sim.requests.
     """
     ok = True
@@ -161,7 +161,10 @@ def req_ok(sim, vids) -> bool:
         dv = r.dispatched_vehicle
         if dv is not None and dv in vids:
             st = sim.vehicles[dv].vehicle_state
-            if not (isinstance(st, DispatchTrip) and st.request_id == rid):
+            if isinstance(st, DispatchPoolingTrip):
+                if not any(r_id == rid for r_id, _ in st.trip_plan):
+                    ok = False
+            elif not (isinstance(st, DispatchTrip) and st.request_id == rid):
                 ok = False
     for vid in vids:
         st = sim.vehicles[vid].vehicle_state
